@@ -1385,6 +1385,10 @@ func (ca *cpuAllocator) AllocateCpus(from *cpuset.CPUSet, cnt int, options ...Op
 
 // ReleaseCpus releases a number of CPUs from the given set.
 func (ca *cpuAllocator) ReleaseCpus(from *cpuset.CPUSet, cnt int, options ...Option) (cpuset.CPUSet, error) {
+	if cnt > from.Size() {
+		return cpuset.New(), fmt.Errorf("cpuset %s does not have %d CPUs to release", from, cnt)
+	}
+
 	oset := from.Clone()
 
 	result, err := ca.allocateCpus(from, from.Size()-cnt, options...)
